@@ -2,6 +2,7 @@ package vsched
 
 import (
 	stdsync "sync"
+	"unsafe"
 )
 
 type selState struct {
@@ -16,20 +17,50 @@ type waiter[T any] struct {
 	val  T
 	ok   bool
 	send bool
+	// happens-before carriers for the race gate (see the comment on Chan)
+	hb   stdsync.Mutex  // released by the waiter when it registers, acquired by whoever completes its operation
+	slot *stdsync.Mutex // the slot object the completing party synchronised on; the waiter does the same when it resumes
 }
 
 // Chan models a Go channel on the controlled scheduler.
+//
+// Happens-before as the Go race detector is told about it by the runtime (runtime/chan.go): a
+// buffered channel of non-empty elements has one synchronisation object per buffer slot, and the
+// k-th send, the k-th receive and the (k+C)-th send each do a release-acquire on slot k mod C; an
+// unbuffered channel and a channel of zero-size elements have a single object; close releases and a
+// receive from a closed channel acquires a separate object.  The logical channel state is plain data
+// read by guards in scheduler context; the objects below are real mutexes locked and unlocked,
+// never contended, by the task that performs the operation, so that the detector sees exactly those
+// edges and no others (an edge too many hides races, an edge too few invents them).  A party that
+// was parked releases into its waiter's own object when it registers - the party that completes
+// the operation acquires that - and repeats the slot synchronisation when it resumes.
 type Chan[T any] struct {
-	capN   int
-	buf    []T
-	closed bool
-	recvq  []*waiter[T]
-	sendq  []*waiter[T]
-	id     int
-	hb     stdsync.Mutex
+	capN    int
+	buf     []T
+	closed  bool
+	recvq   []*waiter[T]
+	sendq   []*waiter[T]
+	id      int
+	slots   []stdsync.Mutex
+	pend    [][]*stdsync.Mutex // per slot: clocks of parked parties the runtime would have put into the slot
+	sx, rx  int                // operations so far at the tail / head of the buffer (slot = count mod len(slots))
+	closeHB stdsync.Mutex
 }
 
-func NewChan[T any](n int) *Chan[T] { return &Chan[T]{capN: n, id: NewObj()} }
+func NewChan[T any](n int) *Chan[T] {
+	ns := 1
+	var zero T
+	if n > 0 && unsafe.Sizeof(zero) > 0 {
+		ns = n
+	}
+	return &Chan[T]{capN: n, id: NewObj(), slots: make([]stdsync.Mutex, ns), pend: make([][]*stdsync.Mutex, ns)}
+}
+
+func hbSync(m *stdsync.Mutex) {
+	m.Lock()
+	m.Unlock()
+}
+
 
 func (c *Chan[T]) oid() int {
 	if c == nil {
@@ -73,6 +104,11 @@ func (c *Chan[T]) canSend(me *Task) bool {
 	if c.closed || len(c.buf) < c.capN {
 		return true
 	}
+	if c.capN > 0 {
+		// the buffer is full.  A receiver that has announced itself but has not been granted its
+		// operation yet does not make room: the sender waits until the receive has happened.
+		return false
+	}
 	w, _ := c.live(c.recvq, me)
 	return w != nil
 }
@@ -88,47 +124,92 @@ func (c *Chan[T]) canRecv(me *Task) bool {
 	return w != nil
 }
 
-// doSend performs the send effect; caller guarantees canSend.
-func (c *Chan[T]) sync() {
-	c.hb.Lock()
-	c.hb.Unlock()
+// slotSync is the release-acquire of the running task on slot n (runtime: racenotify).  Clocks that
+// the runtime put into the slot on behalf of a parked party (see park) are picked up here as well.
+func (c *Chan[T]) slotSync(n int) *stdsync.Mutex {
+	i := n % len(c.slots)
+	hbSync(&c.slots[i])
+	if len(c.pend[i]) > 0 {
+		for _, p := range c.pend[i] {
+			hbSync(p)
+		}
+		c.pend[i] = c.pend[i][:0]
+	}
+	return &c.slots[i]
 }
 
-func (c *Chan[T]) doSend(me *Task, v T) {
-	if me != nil {
-		c.sync()
+// park records that the parked party w takes part in the operation on slot n: the runtime performs
+// its release-acquire on the slot on its behalf, with the clock it had when it parked.  Here that
+// clock sits in w.hb (released at registration); the next task that synchronises on the slot
+// acquires it there, and w itself synchronises on the slot when it resumes.  The party completing
+// the operation does not acquire it - except on an unbuffered channel, where a rendezvous orders
+// both parties in both directions (runtime: racesync).
+func (c *Chan[T]) park(w *waiter[T], n int, sl *stdsync.Mutex) {
+	w.slot = sl
+	if c.capN == 0 {
+		hbSync(&w.hb)
+		return
 	}
+	i := n % len(c.slots)
+	c.pend[i] = append(c.pend[i], &w.hb)
+}
+
+// doSend performs the send effect; caller guarantees canSend.  me == nil: a timer tick deposited
+// from scheduler context (the runtime's timer goroutine: no program-level edge).
+func (c *Chan[T]) doSend(me *Task, v T) {
 	if c.closed {
 		panic("send on closed channel")
 	}
 	if w, _ := c.live(c.recvq, me); w != nil && len(c.buf) == 0 {
+		// direct hand-off to a parked receiver; a buffered channel pretends to go through the buffer
+		if me != nil {
+			c.park(w, c.rx, c.slotSync(c.rx))
+		}
+		c.rx++
+		c.sx = c.rx
 		w.val, w.ok = v, true
 		w.sel.done, w.sel.chosen = true, w.idx
 		c.compact()
 		return
 	}
+	if me != nil {
+		c.slotSync(c.sx)
+	}
+	c.sx++
 	c.buf = append(c.buf, v)
 }
 
 func (c *Chan[T]) doRecv(me *Task) (T, bool) {
 	var zero T
-	c.sync()
 	if len(c.buf) > 0 {
 		v := c.buf[0]
 		c.buf = c.buf[1:]
+		sl := c.slotSync(c.rx)
 		if w, _ := c.live(c.sendq, me); w != nil {
+			// the buffer was full: the parked sender's item moves into the slot that has just been freed
+			c.park(w, c.rx, sl)
+			c.sx++
 			c.buf = append(c.buf, w.val)
 			w.sel.done, w.sel.chosen = true, w.idx
 			c.compact()
 		}
+		c.rx++
 		return v, true
 	}
 	if w, _ := c.live(c.sendq, me); w != nil {
+		// the item comes straight from a sender that has announced its send (unbuffered rendezvous, or a
+		// buffered send that has not been granted yet): the send is synchronised before this receive,
+		// so the receiver acquires the clock the sender had at its send statement
+		hbSync(&w.hb)
+		w.slot = c.slotSync(c.rx)
+		c.rx++
+		c.sx = c.rx
 		w.sel.done, w.sel.chosen = true, w.idx
 		c.compact()
 		return w.val, true
 	}
 	if c.closed {
+		hbSync(&c.closeHB)
 		return zero, false
 	}
 	panic("vsched: doRecv on non-ready channel")
@@ -142,7 +223,7 @@ func (c *Chan[T]) Send(v T) {
 	st := &selState{task: me}
 	w := &waiter[T]{sel: st, val: v, send: true}
 	if c != nil {
-		c.sync()
+		hbSync(&w.hb)
 		c.sendq = append(c.sendq, w)
 	}
 	PointOp("send", c.oid(), func() bool { return sendReady(st, c, me) })
@@ -150,7 +231,9 @@ func (c *Chan[T]) Send(v T) {
 		return
 	}
 	if st.done {
-		c.sync()
+		if w.slot != nil {
+			hbSync(w.slot)
+		}
 		return
 	}
 	st.done = true
@@ -167,7 +250,7 @@ func (c *Chan[T]) Recv2() (T, bool) {
 	st := &selState{task: me}
 	w := &waiter[T]{sel: st}
 	if c != nil {
-		c.sync()
+		hbSync(&w.hb)
 		c.recvq = append(c.recvq, w)
 	}
 	PointOp("recv", c.oid(), func() bool { return recvReady(st, c, me) })
@@ -175,7 +258,9 @@ func (c *Chan[T]) Recv2() (T, bool) {
 		return zero, false
 	}
 	if st.done {
-		c.sync()
+		if w.slot != nil {
+			hbSync(w.slot)
+		}
 		return w.val, w.ok
 	}
 	st.done = true
@@ -196,7 +281,7 @@ func Close[T any](c *Chan[T]) {
 	if c.closed {
 		panic("close of closed channel")
 	}
-	c.sync()
+	hbSync(&c.closeHB)
 	c.closed = true
 	// waiting receivers become enabled through canRecv; waiting senders will panic when run.
 }
@@ -225,8 +310,8 @@ func (r *RecvC[T]) register(st *selState, idx int) {
 	if r.ch == nil {
 		return
 	}
-	r.ch.sync()
 	r.w = &waiter[T]{sel: st, idx: idx}
+	hbSync(&r.w.hb)
 	r.ch.recvq = append(r.ch.recvq, r.w)
 }
 func (r *RecvC[T]) perform(me *Task) {
@@ -239,7 +324,9 @@ func (r *RecvC[T]) perform(me *Task) {
 func (r *RecvC[T]) completedBy(st *selState, idx int) bool {
 	if r.w != nil && st.done && st.chosen == idx {
 		r.V, r.Ok = r.w.val, r.w.ok
-		r.ch.sync()
+		if r.w.slot != nil {
+			hbSync(r.w.slot)
+		}
 		return true
 	}
 	return false
@@ -258,14 +345,16 @@ func (s *SendC[T]) register(st *selState, idx int) {
 	if s.ch == nil {
 		return
 	}
-	s.ch.sync()
 	s.w = &waiter[T]{sel: st, idx: idx, val: s.v, send: true}
+	hbSync(&s.w.hb)
 	s.ch.sendq = append(s.ch.sendq, s.w)
 }
 func (s *SendC[T]) perform(me *Task) { s.ch.doSend(me, s.v) }
 func (s *SendC[T]) completedBy(st *selState, idx int) bool {
 	if st.done && st.chosen == idx {
-		s.ch.sync()
+		if s.w != nil && s.w.slot != nil {
+			hbSync(s.w.slot)
+		}
 		return true
 	}
 	return false
